@@ -58,9 +58,9 @@ void sync_set(Substrate& s, unsigned W, unsigned R, bool b, bool a, const std::s
 }
 void reset_set(Substrate& s) { s.reset_mirrorField<Reduce_set_a_set>(); }
 } // namespace
-const c18::FieldVT c18::vt_a_min = {"a_min", "GALOIS_SYNC_STRUCTURE_REDUCE_MIN_ARRAY(uint32_t[])", R_MIN, K_U32, 1, true,
+const c18::FieldVT c18::vt_a_min = {"a_min", "GALOIS_SYNC_STRUCTURE_REDUCE_MIN_ARRAY(uint32_t[])", R_MIN, K_U32, 1, true, true,
                                     store_min, load_min, write_min, &bitset_a_min, sync_min, reset_min};
-const c18::FieldVT c18::vt_a_add = {"a_add", "GALOIS_SYNC_STRUCTURE_REDUCE_ADD_ARRAY(uint64_t[])", R_ADD, K_U64, 1, true,
+const c18::FieldVT c18::vt_a_add = {"a_add", "GALOIS_SYNC_STRUCTURE_REDUCE_ADD_ARRAY(uint64_t[])", R_ADD, K_U64, 1, true, false,
                                     store_add, load_add, write_add, &bitset_a_add, sync_add, reset_add};
-const c18::FieldVT c18::vt_a_set = {"a_set", "GALOIS_SYNC_STRUCTURE_REDUCE_SET_ARRAY(uint32_t[])", R_SET, K_U32, 1, true,
+const c18::FieldVT c18::vt_a_set = {"a_set", "GALOIS_SYNC_STRUCTURE_REDUCE_SET_ARRAY(uint32_t[])", R_SET, K_U32, 1, true, false,
                                     store_set, load_set, write_set, &bitset_a_set, sync_set, reset_set};
